@@ -18,6 +18,7 @@ import collections
 import importlib
 import inspect
 import itertools
+import os
 
 import gymnasium as gym
 import jax
@@ -55,6 +56,8 @@ ASSUMPTIONS = [
     "states <= 3, actions <= 2 (3 in one thorough table); history horizon 5 with <= 2 episode ends (quick); thorough: full product at horizon 6 for the base Q-learning/SARSA/double-Q/Monte-Carlo configurations, full product at horizon 5 for the others except two Dyna-Q configurations (horizon 5, <= 2 episode ends)",
 ]
 BUDGET_S = {"quick": 600, "thorough": 3000}
+if os.environ.get("VERIF_C14_BUDGET_S"):  # heavily shared machine: raise the wall-clock guard without editing the file
+    BUDGET_S = {k: int(os.environ["VERIF_C14_BUDGET_S"]) for k in BUDGET_S}
 
 SIG = "C14|{}|{}"
 # failure kinds (fixed vocabulary)
